@@ -85,16 +85,24 @@ type exclCase struct {
 	run  func(w *World) (kind, detail string)
 }
 
+// annotatedCases: the cases of every resource that declares read-only and / or create-only fields.
 func annotatedCases(gen string, u *schema.Universe) []exclCase {
-	var r *schema.Resource
+	var out []exclCase
 	for _, x := range u.Resources {
-		if len(x.ReadOnly) > 0 {
-			r = x
+		if len(x.ReadOnly) > 0 || len(x.CreateOnly) > 0 {
+			for _, c := range annotatedCasesFor(gen, u, x) {
+				c.name = x.Name() + ":" + c.name
+				out = append(out, c)
+			}
 		}
 	}
-	if r == nil {
+	if len(out) == 0 {
 		report.Internal("no annotated resource in the universe")
 	}
+	return out
+}
+
+func annotatedCasesFor(gen string, u *schema.Universe, r *schema.Resource) []exclCase {
 	ro := specPaths(r.ReadOnly)
 	roco := specPaths(append(append([]string{}, r.ReadOnly...), r.CreateOnly...))
 	ann := r.Schema
@@ -180,53 +188,57 @@ func annotatedCases(gen string, u *schema.Universe) []exclCase {
 	}
 	cases = append(cases, entityCase("create", ro, false), entityCase("batch_create", ro, true), entityCase("update", roco, false), entityCase("batch_update", roco, true))
 
-	// partial updates: touching an excluded field must fail in the client before anything is sent
+	// partial updates: a patch touching an excluded field must fail in the client before anything is
+	// sent; every other patch must arrive unchanged. What is excluded is the resource's own spec.
 	f := func(n string) *schema.Field { return ann.Field(n) }
 	ent := f("inner").Type
-	touching := map[string]*Patch{
-		"set-read-only-top":      {T: ann, Set: map[string]*schema.V{"id": schema.VI(f("id").Type, 1)}},
-		"set-create-only-top":    {T: ann, Set: map[string]*schema.V{"created": schema.VI(f("created").Type, 1)}},
-		"delete-create-only-top": {T: ann, Delete: []string{"created"}},
-		"nested-set-read-only":   {T: ann, Nested: map[string]*Patch{"inner": {T: ent, Set: map[string]*schema.V{"o": schema.VS(ent.Field("o").Type, "x")}}}},
-		"nested-set-create-only": {T: ann, Nested: map[string]*Patch{"inner": {T: ent, Set: map[string]*schema.V{"a": schema.VI(ent.Field("a").Type, 1)}}}},
-		"nested-delete-read-only": {T: ann, Nested: map[string]*Patch{"inner": {T: ent, Delete: []string{"o"}}}},
+	type probe struct {
+		name string
+		p    *Patch
+		path []string
 	}
-	clean := map[string]*Patch{
-		"set-name":        {T: ann, Set: map[string]*schema.V{"name": schema.VS(f("name").Type, "n")}},
-		"nested-set-s":    {T: ann, Nested: map[string]*Patch{"inner": {T: ent, Set: map[string]*schema.V{"s": schema.VS(ent.Field("s").Type, "x")}}}},
-		"delete-items":    {T: ann, Delete: []string{"items"}},
-		"nested-delete-m": {T: ann, Nested: map[string]*Patch{"inner": {T: ent, Delete: []string{"m"}}}},
+	probes := []probe{
+		{"set-id", &Patch{T: ann, Set: map[string]*schema.V{"id": schema.VI(f("id").Type, 1)}}, []string{"id"}},
+		{"set-created", &Patch{T: ann, Set: map[string]*schema.V{"created": schema.VI(f("created").Type, 1)}}, []string{"created"}},
+		{"delete-created", &Patch{T: ann, Delete: []string{"created"}}, []string{"created"}},
+		{"nested-set-inner-o", &Patch{T: ann, Nested: map[string]*Patch{"inner": {T: ent, Set: map[string]*schema.V{"o": schema.VS(ent.Field("o").Type, "x")}}}}, []string{"inner", "o"}},
+		{"nested-set-inner-a", &Patch{T: ann, Nested: map[string]*Patch{"inner": {T: ent, Set: map[string]*schema.V{"a": schema.VI(ent.Field("a").Type, 1)}}}}, []string{"inner", "a"}},
+		{"nested-delete-inner-o", &Patch{T: ann, Nested: map[string]*Patch{"inner": {T: ent, Delete: []string{"o"}}}}, []string{"inner", "o"}},
+		{"set-name", &Patch{T: ann, Set: map[string]*schema.V{"name": schema.VS(f("name").Type, "n")}}, []string{"name"}},
+		{"nested-set-inner-s", &Patch{T: ann, Nested: map[string]*Patch{"inner": {T: ent, Set: map[string]*schema.V{"s": schema.VS(ent.Field("s").Type, "x")}}}}, []string{"inner", "s"}},
+		{"delete-items", &Patch{T: ann, Delete: []string{"items"}}, []string{"items"}},
+		{"nested-delete-inner-m", &Patch{T: ann, Nested: map[string]*Patch{"inner": {T: ent, Delete: []string{"m"}}}}, []string{"inner", "m"}},
 	}
 	for _, method := range []string{"partial_update", "batch_partial_update"} {
-		for name, p := range touching {
-			method, name, p := method, name, p
-			cases = append(cases, exclCase{method + "-refused:" + name, func(w *World) (string, string) {
-				w.reset()
-				m := r.Method(method)
-				call := &Call{Res: r, M: m}
-				reply := &Reply{}
-				if method == "partial_update" {
-					call.Keys = []*schema.V{key}
-					call.Patch = p
-				} else {
-					call.Keyed = []KV{{K: key, P: p}}
-					reply.Batch = []*BatchEntry{{K: key, Has: map[string]bool{"results": true}, Status: 204}}
-				}
-				outs, pan := w.Do(call, reply)
-				if pan != nil {
-					return "client-panic", fmt.Sprint(pan)
-				}
-				if outs[len(outs)-1].IsNil() {
-					return "excluded-patch-accepted", fmt.Sprintf("%s was sent and succeeded%s", p, w.wireSummary())
-				}
-				if n := len(w.transport.Exchanges); n != 0 {
-					return "excluded-patch-sent", fmt.Sprintf("%s failed (%v) but %d request(s) reached the wire%s", p, outs[len(outs)-1].Interface(), n, w.wireSummary())
-				}
-				return "", ""
-			}})
-		}
-		for name, p := range clean {
-			method, name, p := method, name, p
+		for _, pr := range probes {
+			method, name, p := method, pr.name, pr.p
+			if refMatchesW(roco, pr.path) {
+				cases = append(cases, exclCase{method + "-refused:" + name, func(w *World) (string, string) {
+					w.reset()
+					m := r.Method(method)
+					call := &Call{Res: r, M: m}
+					reply := &Reply{}
+					if method == "partial_update" {
+						call.Keys = []*schema.V{key}
+						call.Patch = p
+					} else {
+						call.Keyed = []KV{{K: key, P: p}}
+						reply.Batch = []*BatchEntry{{K: key, Has: map[string]bool{"results": true}, Status: 204}}
+					}
+					outs, pan := w.Do(call, reply)
+					if pan != nil {
+						return "client-panic", fmt.Sprint(pan)
+					}
+					if outs[len(outs)-1].IsNil() {
+						return "excluded-patch-accepted", fmt.Sprintf("%s was sent and succeeded%s", p, w.wireSummary())
+					}
+					if n := len(w.transport.Exchanges); n != 0 {
+						return "excluded-patch-sent", fmt.Sprintf("%s failed (%v) but %d request(s) reached the wire%s", p, outs[len(outs)-1].Interface(), n, w.wireSummary())
+					}
+					return "", ""
+				}})
+				continue
+			}
 			cases = append(cases, exclCase{method + "-allowed:" + name, func(w *World) (string, string) {
 				w.reset()
 				m := r.Method(method)
@@ -266,8 +278,32 @@ func annotatedCases(gen string, u *schema.Universe) []exclCase {
 		}
 	}
 
-	// server side: raw bodies that do carry excluded fields must be answered 400 without invoking the resource
-	rawCase := func(name, method, restli, target, body string) exclCase {
+	// server side: a raw body that carries a value at an excluded path must be answered 400 without
+	// invoking the resource; the same body on a resource that does not exclude that path must reach it
+	rawCase := func(name, method, restli, target, body string, spec [][]string, paths ...[]string) exclCase {
+		refuse := false
+		for _, pth := range paths {
+			if refMatchesW(spec, pth) {
+				refuse = true
+			}
+		}
+		if !refuse {
+			return exclCase{"server-accepts:" + name, func(w *World) (string, string) {
+				w.reset()
+				raw := fmt.Sprintf("%s %s HTTP/1.1\r\nHost: h\r\nX-RestLi-Method: %s\r\nX-RestLi-Protocol-Version: 2.0.0\r\nContent-Type: application/json\r\nContent-Length: %d\r\n\r\n%s", method, target, restli, len(body), body)
+				x, err := wire.DoRaw(w.transport.Handler, []byte(raw))
+				if x != nil && x.Panic != nil {
+					return "server-panic", fmt.Sprint(x.Panic)
+				}
+				if err != nil || x.Response == nil {
+					return "no-response", fmt.Sprint(err)
+				}
+				if len(w.calls) != 1 {
+					return "allowed-body-refused", fmt.Sprintf("status %d and %d resource invocations for a body without excluded fields: %s; response %.200q", x.Response.StatusCode, len(w.calls), body, x.Body)
+				}
+				return "", ""
+			}}
+		}
 		return exclCase{"server-refuses:" + name, func(w *World) (string, string) {
 			w.reset()
 			raw := fmt.Sprintf("%s %s HTTP/1.1\r\nHost: h\r\nX-RestLi-Method: %s\r\nX-RestLi-Protocol-Version: 2.0.0\r\nContent-Type: application/json\r\nContent-Length: %d\r\n\r\n%s", method, target, restli, len(body), body)
@@ -289,25 +325,45 @@ func annotatedCases(gen string, u *schema.Universe) []exclCase {
 	}
 	ej := func(v *schema.V) string { return refjson.Encode(v, nil) }
 	base := schema.Base(ann)
-	withID := base // id is required, hence present: a create body with the read-only id
-	withCreated := pruneW(base, ro, nil).With("created", schema.VI(f("created").Type, 5))
-	innerO := pruneW(base, ro, nil).With("inner", schema.Rich(ent))
-	itemsO := pruneW(base, ro, nil).With("items", schema.VArr(f("items").Type, schema.Rich(ent)))
-	byKeyO := pruneW(base, ro, nil).With("byKey", schema.VMap(f("byKey").Type, "k", schema.Rich(ent)))
+	// bodies: the base value (required id and name) stripped of what the method's spec excludes, plus one probe field
+	bodyWith := func(spec [][]string, keep string, add func(v *schema.V) *schema.V) *schema.V {
+		var sp [][]string
+		for _, d := range spec {
+			if strings.Join(d, "/") != keep {
+				sp = append(sp, d)
+			}
+		}
+		v := pruneW(base, sp, nil)
+		if add != nil {
+			v = add(v)
+		}
+		return v
+	}
+	root := "/" + r.Name()
+	pID, pCreated, pInnerO, pInnerA := []string{"id"}, []string{"created"}, []string{"inner", "o"}, []string{"inner", "a"}
+	pItemsO, pByKeyO := []string{"items", "0", "o"}, []string{"byKey", "k", "o"}
+	withCreated := func(v *schema.V) *schema.V { return v.With("created", schema.VI(f("created").Type, 5)) }
+	withInner := func(v *schema.V) *schema.V { return v.With("inner", schema.Rich(ent)) }
+	withItems := func(v *schema.V) *schema.V { return v.With("items", schema.VArr(f("items").Type, schema.Rich(ent))) }
+	withByKey := func(v *schema.V) *schema.V {
+		return v.With("byKey", schema.VMap(f("byKey").Type, "k", schema.Rich(ent)))
+	}
 	cases = append(cases,
-		rawCase("create-with-read-only-id", "POST", "create", "/annotated", ej(withID)),
-		rawCase("create-with-nested-read-only", "POST", "create", "/annotated", ej(innerO)),
-		rawCase("create-with-read-only-under-array-wildcard", "POST", "create", "/annotated", ej(itemsO)),
-		rawCase("create-with-read-only-under-map-wildcard", "POST", "create", "/annotated", ej(byKeyO)),
-		rawCase("update-with-create-only", "PUT", "update", "/annotated/7", ej(withCreated)),
-		rawCase("update-with-read-only-id", "PUT", "update", "/annotated/7", ej(withID)),
-		rawCase("batch_create-with-read-only-id", "POST", "batch_create", "/annotated", `{"elements":[`+ej(pruneW(base, ro, nil))+`,`+ej(withID)+`]}`),
-		rawCase("batch_update-with-create-only", "PUT", "batch_update", "/annotated?ids=List(7)", `{"entities":{"7":`+ej(withCreated)+`}}`),
-		rawCase("partial_update-set-read-only", "POST", "partial_update", "/annotated/7", `{"patch":{"$set":{"id":1}}}`),
-		rawCase("partial_update-delete-create-only", "POST", "partial_update", "/annotated/7", `{"patch":{"$delete":["created"]}}`),
-		rawCase("partial_update-nested-set-read-only", "POST", "partial_update", "/annotated/7", `{"patch":{"inner":{"$set":{"o":"x"}}}}`),
-		rawCase("batch_partial_update-set-read-only", "POST", "batch_partial_update", "/annotated?ids=List(7)", `{"entities":{"7":{"patch":{"$set":{"id":1}}}}}`),
-		rawCase("batch_partial_update-nested-set-create-only", "POST", "batch_partial_update", "/annotated?ids=List(7)", `{"entities":{"7":{"patch":{"inner":{"$set":{"a":1}}}}}}`),
+		rawCase("create-with-id", "POST", "create", root, ej(bodyWith(ro, "id", nil)), ro, pID),
+		rawCase("create-with-inner", "POST", "create", root, ej(bodyWith(ro, "", withInner)), ro, pInnerO),
+		rawCase("create-with-items", "POST", "create", root, ej(bodyWith(ro, "", withItems)), ro, pItemsO),
+		rawCase("create-with-byKey", "POST", "create", root, ej(bodyWith(ro, "", withByKey)), ro, pByKeyO),
+		rawCase("create-with-created", "POST", "create", root, ej(bodyWith(ro, "", withCreated)), ro, pCreated),
+		rawCase("update-with-created", "PUT", "update", root+"/7", ej(bodyWith(roco, "", withCreated)), roco, pCreated),
+		rawCase("update-with-id", "PUT", "update", root+"/7", ej(bodyWith(roco, "id", nil)), roco, pID),
+		rawCase("update-with-inner", "PUT", "update", root+"/7", ej(bodyWith(roco, "", withInner)), roco, pInnerO, pInnerA),
+		rawCase("batch_create-with-id", "POST", "batch_create", root, `{"elements":[`+ej(bodyWith(ro, "id", nil))+`]}`, ro, pID),
+		rawCase("batch_update-with-created", "PUT", "batch_update", root+"?ids=List(7)", `{"entities":{"7":`+ej(bodyWith(roco, "", withCreated))+`}}`, roco, pCreated),
+		rawCase("partial_update-set-id", "POST", "partial_update", root+"/7", `{"patch":{"$set":{"id":1}}}`, roco, pID),
+		rawCase("partial_update-delete-created", "POST", "partial_update", root+"/7", `{"patch":{"$delete":["created"]}}`, roco, pCreated),
+		rawCase("partial_update-nested-set-inner-o", "POST", "partial_update", root+"/7", `{"patch":{"inner":{"$set":{"o":"x"}}}}`, roco, pInnerO),
+		rawCase("batch_partial_update-set-id", "POST", "batch_partial_update", root+"?ids=List(7)", `{"entities":{"7":{"patch":{"$set":{"id":1}}}}}`, roco, pID),
+		rawCase("batch_partial_update-nested-set-inner-a", "POST", "batch_partial_update", root+"?ids=List(7)", `{"entities":{"7":{"patch":{"inner":{"$set":{"a":1}}}}}}`, roco, pInnerA),
 	)
 	return cases
 }
